@@ -46,8 +46,12 @@ def run(repo, rep, tier):
     # rules are part of this property as well
     rep.rule("R20.4", "loop shape of Interpolator.__call__ (shared with "
                       "C06.R06.4) and value conversion of a lone ${...}")
-    from .c06 import _loop
+    from .c06 import _loop, marker_on_text
     _loop(repo, rep, rule="R20.4")
+    # 'each ${expr} is replaced': the whole source is one text node, and
+    # whether it is interpolated at all is the marker test of visit_text
+    L.borrow(repo, rep, "R20.4", "C06", marker_on_text,
+             ("marker-on-text:visit_text",))
     _lone_value(repo, rep)
     # 'the string form of expr's value': a name is the template variable of
     # that name whenever it is bound -- also to 0, '' or None -- and a
